@@ -69,6 +69,7 @@ type Frame struct {
 	siteCnt  map[string]int
 	siteOrd  map[interface{}]int
 	hints    []string
+	aliases  map[string]Val
 	freeVars []Val
 	params   []Val
 	safety   map[string]bool
@@ -340,6 +341,10 @@ func (fr *Frame) enterBlock(b *ssa.BasicBlock) *State {
 			v := vc.freshVal(fr.vname(phi), phi.Type())
 			fr.vals[phi] = v
 			vc.assume(r, vc.typeFacts(v))
+			if isRangeIndexPhi(phi) {
+				// the hidden index of a range loop starts at -1 and is only ever incremented
+				vc.assume(r, "(>= "+v.L[0]+" (- 1))")
+			}
 			continue
 		}
 		var vals []Val
@@ -534,4 +539,30 @@ func (fr *Frame) addHint(t string) {
 		}
 	}
 	top.hints = append(top.hints, t)
+}
+
+// isRangeIndexPhi recognises the index variable go/ssa synthesises for
+// `for i := range slice`: phi [-1, phi+1, ...].
+func isRangeIndexPhi(phi *ssa.Phi) bool {
+	if phi.Comment != "rangeindex" {
+		return false
+	}
+	sawInit := false
+	for _, e := range phi.Edges {
+		switch x := e.(type) {
+		case *ssa.Const:
+			if x.Value == nil || x.Int64() != -1 {
+				return false
+			}
+			sawInit = true
+		case *ssa.BinOp:
+			one, ok := x.Y.(*ssa.Const)
+			if x.Op != token.ADD || x.X != ssa.Value(phi) || !ok || one.Value == nil || one.Int64() != 1 {
+				return false
+			}
+		default:
+			return false
+		}
+	}
+	return sawInit
 }
